@@ -286,6 +286,7 @@ public:
 			if (v.is_arr()) for (auto &e : v.a) note(e); else note(v);
 		}
 		std::string txt = js::dump(v);
+		if (trace()) fprintf(stderr, "TRACE step %d > conn %d: %s\n", (int)step_no, ci, txt.substr(0, 400).c_str());
 		deliver(c.kc, frame_for(c, txt));
 		ModelEvent e; e.k = ModelEvent::MESSAGE; e.conn = ci; e.msg = v; e.seq = evs.size();
 		if (txt.size() > max_message_size) { e.k = ModelEvent::INVALID; vd.labels.insert("over-long-message"); } // above the configured maximum: the connection ends
@@ -663,7 +664,8 @@ public:
 					Value v; std::string err;
 					if (!js::parse(f.payload, v, &err)) { c.decode_failed = true; vd.add("output/invalid-json", "conn " + std::to_string(ci) + ": " + err + ": " + f.payload.substr(0, 200)); return; }
 					c.msgs.push_back(v); c.raw.push_back(f.payload);
-				} else c.ctrl.push_back(f);
+					if (trace()) fprintf(stderr, "TRACE step %d < conn %d: %s\n", (int)step_no, ci, f.payload.substr(0, 400).c_str());
+				} else { c.ctrl.push_back(f); if (trace()) fprintf(stderr, "TRACE step %d < conn %d: ws control opcode %d\n", (int)step_no, ci, f.opcode); }
 			}
 			return;
 		}
@@ -676,8 +678,10 @@ public:
 			Value v; std::string err;
 			if (!js::parse(txt, v, &err)) { c.decode_failed = true; vd.add("output/invalid-json", "conn " + std::to_string(ci) + ": " + err + ": " + txt.substr(0, 200)); return; }
 			c.msgs.push_back(v); c.raw.push_back(txt);
+			if (trace()) fprintf(stderr, "TRACE step %d < conn %d: %s\n", (int)step_no, ci, txt.substr(0, 400).c_str());
 		}
 	}
+	static bool trace() { static bool t = getenv("VERIF_TRACE") != nullptr; return t; }
 
 	// ------------------------------------------------------------------ model ordering of one step
 	void apply_model(std::vector<ModelEvent> &evs)
@@ -1015,6 +1019,11 @@ public:
 					if (u != unfetch_reqs.end()) { replicas.erase({(int)ci, u->second}); open_keys[{(int)ci, u->second}]--; unfetch_reqs.erase(u); }
 					continue;
 				}
+				if (!meth && msg.has("error") && msg.has("id")) { // a refused unfetch ends nothing (and its request id may be used again later)
+					auto u = unfetch_reqs.find({(int)ci, js::dump(*msg.get("id"))});
+					if (u != unfetch_reqs.end()) unfetch_reqs.erase(u);
+					continue;
+				}
 				if (!meth || msg.has("id") || !p || !p->is_obj()) continue;
 				if (open_keys[{(int)ci, js::dump(*meth)}] <= 0) vd.add("C01/notification-outside-fetch-lifetime", "conn " + std::to_string(ci) + " fetch " + js::dump(*meth) + ": " + c.raw[i].substr(0, 200));
 				const Value *path = p->get("path"), *ev = p->get("event");
@@ -1098,6 +1107,21 @@ public:
 		if (opt.ws_check) ws_judge();
 		if (opt.framing_check) flush_judge();
 		if (opt.replica_check) replica_update();
+		if (!opt.model_check) {
+			// checks that do not judge transcripts still need the routed ids, or no owner could ever answer: take them from the
+			// routed requests the owners received (a request object with a string id whose method is a path the model has in flight)
+			for (size_t ci = 0; ci < cc.size(); ci++) {
+				CConn &c = cc[ci];
+				for (size_t i = c.checked; i < c.msgs.size(); i++) {
+					const Value &msg = c.msgs[i];
+					const Value *meth = msg.get("method"), *id = msg.get("id");
+					if (!meth || !id || !meth->is_str() || !id->is_str()) continue;
+					bool seen = false; for (auto &r : m.inflight) if (r.rid == id->s) seen = true;
+					if (seen) continue;
+					for (auto &r : m.inflight) if (r.owner == (int)ci && r.rid.empty() && r.path == meth->s) { r.rid = id->s; vd.stat["rids_learned"]++; break; }
+				}
+			}
+		}
 		if (opt.model_check) {
 			// a faulty peer may be dropped by the daemon at any time (its response could not be written, its socket failed):
 			// from then on it is an ordinary disconnect
